@@ -13,6 +13,7 @@ RULE = (
     "(b) Hypothesis: rooted trees of <=30 spans, types from a 5-letter "
     "alphabet, sibling starts distinct, drawn prior-information group maps "
     "and rename maps (keys, mapped names and group-map types disjoint, except "
+    "that a mapped name may be the key of the other entry (chained entries) and "
     "in a third of the cases with both maps where groups may name mapped "
     "types: the pipeline renames the whole trace before sequencing it, so "
     "prior information sees mapped types; "
@@ -184,6 +185,8 @@ def classify(case):
             nontrivial = True
     if case.get("maps_overlap"):
         classes.append("rename_and_group_maps_overlap")
+    if case.get("rename_chain"):
+        classes.append("rename_entries_chained")
     if case.get("rename"):
         hit = False
         for t, (m, listed) in case["rename"].items():
@@ -276,6 +279,13 @@ def case_strategy():
                 k: ["M_" + k, draw(st.lists(st.sampled_from(rest), min_size=1,
                                             max_size=2, unique=True))]
                 for k in rename_keys}
+            if len(rename_keys) == 2 and draw(st.integers(0, 2)) == 0:
+                # chained entries: the mapped type of one entry is the key
+                # of the other.  Renaming is one pass over the trace, a
+                # span is looked at once (listed child types are never
+                # renamed themselves, so the pass order does not matter)
+                case["rename"][rename_keys[0]][0] = rename_keys[1]
+                case["rename_chain"] = True
         if mode in (1, 3):
             rest = [a for a in ALPHA if a not in rename_keys]
             if rename_keys and draw(st.integers(0, 2)) == 0:
